@@ -28,6 +28,9 @@ type enumValueLoader struct {
 	// lastIdx index of last added enum value.
 	lastIdx int
 
+	// lineEnded true - if the line of the last added enum value has ended.
+	lineEnded bool
+
 	// inProgress true - if loading in progress, false - if loading finisher.
 	inProgress bool
 }
@@ -51,6 +54,12 @@ func (l *enumValueLoader) Load(lex lexeme.LexEvent) bool {
 	defer lexeme.CatchLexEventError(lex)
 	l.stateFunc(lex)
 	return l.inProgress
+}
+
+// NewLine a comment written on the following lines doesn't belong to the last
+// added enum value.
+func (l *enumValueLoader) NewLine() {
+	l.lineEnded = true
 }
 
 // begin of array "[", or "@"
@@ -95,9 +104,10 @@ func (l *enumValueLoader) commentEnd(lex lexeme.LexEvent) {
 		panic(errors.ErrLoader)
 	}
 
-	if l.lastIdx < l.enumConstraint.Len() {
-		// A comment written before the first value belongs to no value.
-		l.enumConstraint.SetComment(l.lastIdx, lex.Value().String())
+	if l.lastIdx < l.enumConstraint.Len() && !l.lineEnded {
+		// A comment written before the first value, or on a line where no value
+		// ends, belongs to no value.
+		l.enumConstraint.SetComment(l.lastIdx, lex.Value().TrimSpaces().String())
 	}
 	l.stateFunc = l.annotationEnd
 }
@@ -115,6 +125,7 @@ func (l *enumValueLoader) literal(lex lexeme.LexEvent) {
 	case lexeme.LiteralBegin:
 	case lexeme.LiteralEnd:
 		l.lastIdx = l.enumConstraint.Append(constraint.NewEnumItem(lex.Value(), ""))
+		l.lineEnded = false
 		l.stateFunc = l.arrayItemEnd
 	default:
 		panic(errors.ErrIncorrectArrayItemTypeInEnumRule)
